@@ -1,7 +1,7 @@
 (* C05 — @memoize never changes what is accepted or the tree that is returned. *)
 From PegV Require Import Utf8 State Terminals Syntax Fields Literals Model Inv Memo MemoEq Spec Sim Conform ConformX Extracted.
 From PegV Require Import MemoTot.
-From PegV Require LocalConform.
+From PegV Require LocalConform LocalExamples OnceExamples.
 
 Theorem C05_facts :
   Extracted.file_codegen_src_rule_rs = true /\ Extracted.file_codegen_src_grammar_mod_rs = true /\
@@ -163,3 +163,10 @@ Proof.
   destruct W as [-> [R1 R2]]. auto.
 Qed.
 Print Assumptions C05_transparent_beside_leftrec.
+
+(* the hypotheses are met by  @leftrec E = l:*E '+' t:T | t:T;  @memoize T = n:N '*' t:*T | n:N;  @memoize N :
+   no @leftrec rule is reachable from the memoized rules T and N *)
+Theorem C05_beside_leftrec_instance :
+  LocalConform.no_leftrec_reachable OnceExamples.g_lr_memo LocalExamples.nolr_calc /\ LocalExamples.nolr_calc LocalExamples.nT = true.
+Proof. exact LocalExamples.calc_no_leftrec_reachable. Qed.
+Print Assumptions C05_beside_leftrec_instance.
